@@ -1,6 +1,6 @@
 //! Harness for property C15 — KIP parsing is total, bounded, deterministic and classifies by content.
 //!
-//! * generator: grammar-derived KQL / KML / META sentences (`gen.rs`), token-level and
+//! * generator: grammar-derived KQL / KML / META sentences (`grammar.rs`), token-level and
 //!   character-level mutations, arbitrary Unicode, nests around and beyond the depth limit,
 //!   inputs around and beyond the length limit (`mutate.rs`);
 //! * real code: `anda_kip::{parse_kip, parse_kql, parse_kml, parse_meta, parse_json,
@@ -10,14 +10,23 @@
 //! * oracle (independent of the model): see `child.rs::parse_all` / `serde_checks` and the
 //!   metamorphic comparisons in `run_case` below.
 //!
-//! Line protocol of a case (what the corpus stores and a replay carries):
-//!   mode raw                 the input is the concatenation of the chunks that follow
-//!     b <hex>                a chunk (UTF-8 bytes in hex)
-//!     rep <n> <hex>          a chunk repeated n times
-//!   mode tok <flags>         the input is a token list; flags: `m` trivia metamorphism applies,
-//!                            `c` keyword tokens stand in keyword positions (case metamorphism applies)
-//!     t K <hex> | t T <hex>  a keyword token / any other token
-//! The Lean driver is asked `k <hex of a rendered input> <non-ASCII alphanumerics>` per evaluated string.
+//! Line protocol of a case (what the corpus stores and a replay carries). First line: the mode.
+//!   mode raw                   the input is the concatenation of the chunks that follow
+//!     b <hex>                  a chunk (UTF-8 bytes in hex)
+//!     rep <n> <hex>            a chunk repeated n times
+//!   mode tok <flags> <vseed>   the input is a token list, rendered with single spaces (base) and as
+//!                              variants seeded by vseed; flags: `m` trivia metamorphism applies, `c`
+//!                              keyword tokens stand in keyword positions (case metamorphism applies), `-` none
+//!     t K <hex> | t T <hex>    a keyword token / any other token
+//!   mode same <key>            explicit metamorphic set: every line is a whole input, all of them must
+//!     s <hex>                  parse to the same result (failure key = <key>)
+//!   mode words                 correspondence of `words(&[..])` / `trivia1`: every line is a separator;
+//!     s <hex>                  `DESCRIBE EXECUTION<sep>CONTEXT` is parsed and the model is asked whether
+//!                              `words(&["EXECUTION","CONTEXT"])` matches `EXECUTION<sep>CONTEXT`
+//!   expect <result>            (any mode, optional) parse_kip's answer for the base input:
+//!                              ok | err:syntax | err:too_deep | err:too_long
+//! Requests to the Lean driver (one per evaluated string): `k <hex> <non-ASCII alphanumerics>` (budget
+//! verdict + family), `x <hex>` (reference lexer classes, sampled), `w …` (words), `wsset` / `alnumset`.
 
 mod child;
 mod grammar;
@@ -59,7 +68,9 @@ enum EvalErr {
 
 impl ChildProc {
     fn spawn(stack: usize) -> ChildProc {
-        let exe = std::env::current_exe().expect("current_exe");
+        // `/proc/self/exe` still names this very binary when the file on disk has been replaced by a
+        // rebuild in the meantime (current_exe() would then end in " (deleted)")
+        let exe = if std::path::Path::new("/proc/self/exe").exists() { std::path::PathBuf::from("/proc/self/exe") } else { std::env::current_exe().expect("current_exe") };
         let mut child = Command::new(exe).arg("--child").arg(stack.to_string()).stdin(Stdio::piped()).stdout(Stdio::piped()).stderr(Stdio::null()).spawn().expect("spawn child");
         let stdin = child.stdin.take().unwrap();
         let stdout = child.stdout.take().unwrap();
@@ -129,6 +140,8 @@ enum Case {
     Tok { flags: String, vseed: u64, toks: Vec<Tok> },
     /// inputs that must all parse to the same result
     Same { key: String, inputs: Vec<String> },
+    /// separators tried between the two words of `EXECUTION CONTEXT`
+    Words { seps: Vec<String> },
 }
 
 fn case_to_ops(c: &Case) -> Vec<String> {
@@ -163,6 +176,13 @@ fn case_to_ops(c: &Case) -> Vec<String> {
                 }
             }
             flush(&mut buf, &mut ops);
+            ops
+        }
+        Case::Words { seps } => {
+            let mut ops = vec!["mode words".to_string()];
+            for x in seps {
+                ops.push(format!("s {}", if x.is_empty() { "-".to_string() } else { hex(x.as_bytes()) }));
+            }
             ops
         }
         Case::Same { key, inputs } => {
@@ -211,6 +231,17 @@ fn ops_to_case(ops: &[String]) -> Option<Case> {
                 }
             }
             Some(Case::Raw(s))
+        }
+        ["mode", "words"] => {
+            let mut seps = Vec::new();
+            for l in &ops[1..] {
+                let w: Vec<&str> = l.split_whitespace().collect();
+                match w.as_slice() {
+                    ["s", h] => seps.push(child::unhex(h)?),
+                    _ => return None,
+                }
+            }
+            Some(Case::Words { seps })
         }
         ["mode", "same", key] => {
             let mut inputs = Vec::new();
@@ -316,6 +347,17 @@ impl Worker {
             o.failures.push((s("key"), format!("{} [{label} input: {}]", s("what"), clip(x, 300)), s("expected"), s("observed")));
         }
         o.max_micros = o.max_micros.max(v.get("micros").and_then(|m| m.as_u64()).unwrap_or(0));
+        // the reference lexer (the specification the theorems use) against the parser's own reading
+        for m in v.get("lexer_mismatch").and_then(|p| p.as_array()).cloned().unwrap_or_default() {
+            o.disagreements.push((
+                format!("reference lexer vs parser on the accepted {label} input {}", clip(x, 200)),
+                "refLex: strings are string literals, comments are trivia".into(),
+                m.as_str().unwrap_or("").to_string(),
+            ));
+        }
+        if v.get("kip").and_then(|s| s.as_str()) == Some("ok") {
+            o.hits.push("reflex-vs-parser:checked".into());
+        }
         let kip = g("kip");
         let ev = Ev { status: if kip == "ok" { "ok".into() } else { "err".into() }, family: g("family"), tree: g("tree") };
         o.hits.push(format!("result:{}", if kip == "ok" { format!("ok-{}", ev.family) } else { kip.clone() }));
@@ -332,6 +374,15 @@ impl Worker {
             let req = format!("k {} {}", if x.is_empty() { "-".to_string() } else { hex(x.as_bytes()) }, alnum);
             let ans = m.ask(&req);
             o.model_compared += 1;
+            // the oracle's own reference lexer against the Lean one (a check of the harness, on a sample)
+            if !x.is_empty() && x.len() <= 1500 && o.strings % 3 == 1 {
+                let lean = m.ask(&format!("x {}", hex(x.as_bytes())));
+                let rust = child::ref_classes(x);
+                o.hits.push("reflex:compared".into());
+                if lean != rust {
+                    o.disagreements.push((format!("the harness's reference lexer and the Lean refLex classify {} differently", clip(x, 200)), lean, rust));
+                }
+            }
             let mut it = ans.split(' ');
             let (mb, mf) = (it.next().unwrap_or(""), it.next().unwrap_or(""));
             let ib = match kip.as_str() {
@@ -375,6 +426,29 @@ impl Worker {
                     o.canon = format!("{}|{}", ev.status, ev.tree);
                     if o.nontrivial {
                         o.sample = Some(json!({"input": clip(&s, 200), "family": ev.family}));
+                    }
+                }
+            }
+            Case::Words { seps } => {
+                for (n, sep) in seps.iter().enumerate() {
+                    let x = format!("DESCRIBE EXECUTION{sep}CONTEXT");
+                    let Some(ev) = self.eval_string(&x, &format!("#{n}"), &mut o) else { continue };
+                    if n == 0 {
+                        o.canon = format!("words|{}", ev.status);
+                    }
+                    o.hits.push(format!("words:{}", ev.status));
+                    if let Some(m) = self.model.as_mut() {
+                        let tail = format!("EXECUTION{sep}CONTEXT");
+                        let mut cps: Vec<u32> = tail.chars().filter(|c| !c.is_ascii() && c.is_alphanumeric()).map(|c| c as u32).collect();
+                        cps.sort_unstable();
+                        cps.dedup();
+                        let alnum = if cps.is_empty() { "-".to_string() } else { vh_common::join(cps, ",") };
+                        let ans = m.ask(&format!("w {} {} {} {}", hex(b"EXECUTION"), hex(b"CONTEXT"), hex(tail.as_bytes()), alnum));
+                        o.model_compared += 1;
+                        let want = if ev.status == "ok" { "yes" } else { "no" };
+                        if ans != want {
+                            o.disagreements.push((format!("words(&[\"EXECUTION\", \"CONTEXT\"]) on the separator {sep:?}"), ans, format!("parse_kip(\"DESCRIBE EXECUTION<sep>CONTEXT\") = {}", ev.status)));
+                        }
                     }
                 }
             }
@@ -499,10 +573,23 @@ fn sentence(r: &mut Rng, naughty: bool) -> (Vec<Tok>, Vec<&'static str>) {
 }
 
 /// The case of index `i` (deterministic in `(seed, i)`), with its histogram tags.
-fn generate(seed: u64, i: u64, thorough: bool) -> (Case, Vec<String>) {
+fn generate(seed: u64, i: u64, thorough: bool, lexical_focus: bool) -> (Case, Vec<String>) {
     let mut r = Rng::for_case(seed, i);
     let mut tags: Vec<String> = Vec::new();
-    let k = r.below(100);
+    let mut k = r.below(100);
+    if lexical_focus {
+        // search mode after a broken obligation about the pre-scan / the tables: spend most of the
+        // budget where the lexical layer decides (bracket soup, nests around the limit, lengths,
+        // character-level damage, head keywords)
+        k = match r.below(10) {
+            0..=3 => 82,      // bracket soup
+            4 | 5 => 86,      // nests
+            6 => 99,          // lengths / absurd depths
+            7 => 70,          // character mutations
+            8 => 78,          // arbitrary unicode
+            _ => k,
+        };
+    }
     let case = if k < 34 {
         let (toks, feats) = sentence(&mut r, false);
         tags.push("gen:sentence".into());
@@ -537,9 +624,30 @@ fn generate(seed: u64, i: u64, thorough: bool) -> (Case, Vec<String>) {
         }
         tags.push("gen:char-mutation".into());
         Case::Raw(s)
-    } else if k < 85 {
+    } else if k < 81 {
         tags.push("gen:arbitrary-unicode".into());
         Case::Raw(mutate::arbitrary_unicode(&mut r))
+    } else if k < 84 {
+        tags.push("gen:bracket-soup".into());
+        Case::Raw(mutate::bracket_soup(&mut r))
+    } else if k < 85 {
+        tags.push("gen:words-separators".into());
+        let mut seps = Vec::new();
+        for _ in 0..6 {
+            let n = r.usize(5);
+            let mut s = String::new();
+            for _ in 0..n {
+                match r.below(10) {
+                    0..=3 => s.push(*r.pick(&[' ', '\t', '\n', '\r'])),
+                    4 | 5 => s.push_str(*r.pick(mutate::UNICODE_WS)),
+                    6 => s.push_str(*r.pick(&["//", "// c\n", "//\n", "/"])),
+                    7 => s.push_str(*r.pick(mutate::TRIVIA)),
+                    _ => s.push(*r.pick(&['x', '_', '?', '"', '(', '\u{200B}', 'é', '1'])),
+                }
+            }
+            seps.push(s);
+        }
+        Case::Words { seps }
     } else if k < 93 {
         // nests around and beyond the limit
         let depth = match r.below(10) {
@@ -569,7 +677,7 @@ fn generate(seed: u64, i: u64, thorough: bool) -> (Case, Vec<String>) {
         tags.push(format!("gen:{name}"));
         Case::Tok { flags: "cm".into(), vseed: i, toks: g.out }
     } else if k < 98 {
-        let n = if thorough { *r.pick(&[50usize, 400, 2000]) } else { *r.pick(&[50usize, 300]) };
+        let n = if thorough { if r.chance(1, 20) { 2000 } else { *r.pick(&[50usize, 400, 1000]) } } else { *r.pick(&[50usize, 300]) };
         let kind = r.below(3);
         let mut g = Gen::new(&mut r, 0);
         let name = g.wide(kind, n);
@@ -642,7 +750,7 @@ fn shrink_failure(w: &mut Worker, ops: &[String], key: &str, disagreement: bool)
             let o = w.run_case(cand);
             if disagreement { !o.disagreements.is_empty() } else { o.failures.iter().any(|f| f.0 == key) }
         },
-        250,
+        120,
     );
     let o = w.run_case(&small);
     (small, o)
@@ -657,7 +765,7 @@ fn finish(w: &mut Worker, index: u64, name: String, ops: Vec<String>, tags: Vec<
     for k in keys.iter().take(3) {
         let n = w.shrunk_per_key.entry(k.clone()).or_insert(0);
         *n += 1;
-        if *n > 2 {
+        if *n > 1 {
             continue;
         }
         let (s, o) = shrink_failure(w, &ops, k, false);
@@ -703,6 +811,20 @@ fn main() {
         );
     }
 
+    // ---- the character tables of the model against std's (exhaustive) ------------------------
+    if let Some(mut m) = ModelProc::from_args(&args) {
+        let ws: Vec<u32> = (0..=0x10FFFFu32).filter_map(char::from_u32).filter(|c| c.is_whitespace()).map(|c| c as u32).collect();
+        let al: Vec<u32> = (0..0x80u32).filter_map(char::from_u32).filter(|c| c.is_alphanumeric()).map(|c| c as u32).collect();
+        for (req, mine) in [("wsset", vh_common::join(ws, ",")), ("alnumset", vh_common::join(al, ","))] {
+            let theirs = m.ask(req);
+            report.model_compared += 1;
+            report.hit(&format!("table:{req}"));
+            if theirs != mine {
+                report.disagreement(&format!("{req}: the model's character table differs from std's (char::is_whitespace / is_alphanumeric)"), &[], &theirs, &mine);
+            }
+        }
+    }
+
     // ---- the work list ---------------------------------------------------------------------
     let mut work: Vec<(u64, String, Vec<String>, Vec<String>)> = Vec::new();
     if let Some(rp) = &args.replay {
@@ -713,11 +835,18 @@ fn main() {
                 work.push((work.len() as u64, format!("corpus:{name}"), ops, vec!["corpus".into()]));
             }
         }
-        let n_cases = args.extra.get("cases").and_then(|s| s.parse().ok()).unwrap_or(args.budget(9_000, 400_000));
+        let n_cases = args.extra.get("cases").and_then(|s| s.parse().ok()).unwrap_or(if args.focus.is_some() { 150_000 } else { args.budget(5_000, 400_000) });
         let thorough = args.thorough() || args.focus.is_some();
+        let lexical_focus = args.focus.as_ref().is_some_and(|f| {
+            let f = f.to_lowercase();
+            ["budget", "bracket", "limit", "kiplimits", "c15_kip_limits", "gen_", "comment", "disagree", "lake build"].iter().any(|w| f.contains(w))
+        });
+        if let Some(f) = &args.focus {
+            report.notes.push(format!("search mode (focus: {f}); lexical focus: {lexical_focus}"));
+        }
         let base = work.len() as u64;
         for i in 0..n_cases {
-            let (case, tags) = generate(args.seed, i, thorough);
+            let (case, tags) = generate(args.seed, i, thorough, lexical_focus);
             work.push((base + i, format!("gen:{i}"), case_to_ops(&case), tags));
         }
     }
@@ -770,7 +899,7 @@ fn main() {
         for t in &d.tags {
             report.hit(t);
         }
-        if d.out.max_micros > 200_000 {
+        if d.out.max_micros > 200_000 && report.notes.len() < 12 {
             report.notes.push(format!("slow: {} {:?} {} us, {} ops", d.name, d.tags, d.out.max_micros, d.ops.len()));
         }
         for h in &d.out.hits {
